@@ -1,8 +1,9 @@
 #include "slu_mt_@p@defs.h"
+#include "wf.h"
 #include "defs.h"
 /* ghosts: geometry, ghost panel column / row below the diagonal block / list position / row id / tempv index; BLAS call records */
-int_t g_lptr, g_xf, g_c, g_row, g_q, g_r, g_t; @T@ g_dense0[M*W];
-int g_trsv_calls, g_gemv_calls, g_trsv_cnt, g_gemv_cnt; int_t g_trsv_aoff, g_trsv_n, g_gemv_aoff, g_gemv_m, g_gemv_n;
+int_t g_lptr, g_xf, g_c, g_row, g_q, g_r, g_t, g_p, g_l, g_x; @T@ g_dense0_r, g_dense0_q, g_lu0; int_t g_lsub0, g_repfnz0, g_xlsub0, g_xlsub_end0, g_xlusup0, g_unused0[3];
+struct blas_rec g_blas;
 /* inputs */
 int_t in_pnum, in_m, in_w, in_jcol, in_fsupc, in_krep, in_nsupc, in_nsupr, in_nrow, in_maxsuper, in_rowblk;
 int_t in_repfnz[M*W], in_panel_lsub[M*W], in_w_lsub_end[W], in_spa_marker[M*W]; @T@ in_dense[M*W], in_tempv[TVC];
@@ -72,11 +73,62 @@ int @p@gemv_(char *trans, int *m, int *n, @T@ *alpha, @T@ *A, int *lda, @T@ *x, 
   return 0;
 }
 
+
+int_t nondet_int_t(void);
+#define REQ(label, c) __CPROVER_assume(c)
+#define ENS(label, c) __CPROVER_assert(c, "ensures " #label)
+#undef DENSE0
+/* BOUNDED unit (label B(n)): no contract is enforced (a loop contract would havoc the cursor pointers dense_col/TriTmp/repfnz_col, after
+ * which symex splits every access over all assignable objects: 70M clauses, out of memory; DFCC: out of memory as well).  The real
+ * routine is executed symbolically with all loops unwound (--unwinding-assertions), for every geometry within the capacities.
+ * The clauses are the ones a contract would carry: REQ = requires (assumed), ENS = ensures (asserted), frame = ghost index per array. */
 void h_bmod2D(void) {
+  /* ---------- inputs: nondeterministic ---------- */
+  in_pnum = nondet_int_t(); in_m = nondet_int_t(); in_w = nondet_int_t(); in_jcol = nondet_int_t(); in_fsupc = nondet_int_t(); in_krep = nondet_int_t();
+  in_nsupc = nondet_int_t(); in_nsupr = nondet_int_t(); in_nrow = nondet_int_t(); in_maxsuper = nondet_int_t(); in_rowblk = nondet_int_t();
+  g_lptr = nondet_int_t(); g_xf = nondet_int_t(); g_c = nondet_int_t(); g_row = nondet_int_t(); g_q = nondet_int_t(); g_r = nondet_int_t(); g_t = nondet_int_t();
+  g_p = nondet_int_t(); g_l = nondet_int_t(); g_x = nondet_int_t();
+  __CPROVER_havoc_object(in_repfnz); __CPROVER_havoc_object(in_panel_lsub); __CPROVER_havoc_object(in_w_lsub_end); __CPROVER_havoc_object(in_spa_marker);
+  __CPROVER_havoc_object(in_dense); __CPROVER_havoc_object(in_tempv); __CPROVER_havoc_object(in_procstat);
+  __CPROVER_havoc_object(in_xlsub); __CPROVER_havoc_object(in_xlsub_end); __CPROVER_havoc_object(in_xlusup); __CPROVER_havoc_object(in_lsub); __CPROVER_havoc_object(in_lusup);
   in_Glu.lsub = in_lsub; in_Glu.xlsub = in_xlsub; in_Glu.xlsub_end = in_xlsub_end; in_Glu.lusup = in_lusup; in_Glu.xlusup = in_xlusup;
   in_Gstat.procstat = in_procstat;
+  /* ---------- requires ---------- */
+  REQ(args, 0 <= in_pnum && in_pnum < NP && 1 <= in_m && in_m <= M && 1 <= in_w && in_w <= W && 0 <= in_jcol && in_jcol <= M);
+  /* the updating supernode: columns fsupc..krep, nsupr >= nsupc rows, nrow rows below the diagonal block */
+  REQ(snode, 0 <= in_fsupc && in_fsupc <= in_krep && in_krep < in_m && in_nsupc == in_krep - in_fsupc + 1 && in_nsupc <= in_nsupr && in_nsupr <= LC && in_nrow == in_nsupr - in_nsupc && in_nrow <= NRC);
+  REQ(geometry, g_lptr == in_xlsub[in_fsupc] && 0 <= g_lptr && g_lptr <= LC - in_nsupr && in_xlsub_end[in_fsupc] == g_lptr + in_nsupr && g_xf == in_xlusup[in_fsupc] && 0 <= g_xf && g_xf <= LUC && in_nsupr*in_nsupc <= LUC - g_xf);
+  REQ(rows_in_range, FA(q1, LC, INLIST(q1) ==> (0 <= in_lsub[q1] && in_lsub[q1] < in_m)));
+  REQ(rows_distinct, FA(q2, LC, FA(q3, LC, (INLIST(q2) && q2 < q3 && INLIST(q3)) ==> in_lsub[q2] != in_lsub[q3])));
+  /* each panel column's U-segment w.r.t. this supernode is empty or starts at a column of the supernode */
+  REQ(segments, FA(c1, W, c1 < in_w ==> (KFNZ(c1) == EMPTY || (in_fsupc <= KFNZ(c1) && KFNZ(c1) <= in_krep))));
+  /* blocking parameters: a supernode has at most maxsuper columns; tempv holds w slots of maxsuper+rowblk scalars (NUM_TEMPV) */
+  REQ(blocking, in_nsupc <= in_maxsuper && in_maxsuper <= TVC && 1 <= in_rowblk && in_rowblk <= TVC && in_w*(in_maxsuper + in_rowblk) <= TVC);
+  REQ(tempv_zero_on_entry, FA(t1, TVC, in_tempv[t1] == 0.0));
+  /* ghost indices: panel column, row below the diagonal block, list position, row id, tempv index; one index per read-only array */
+  REQ(ghosts, 0 <= g_c && g_c < in_w && 0 <= g_row && g_row < M && 0 <= g_q && g_q < in_nsupr && 0 <= g_r && g_r < in_m && 0 <= g_t && g_t < TVC && 0 <= g_p && g_p < LUC && 0 <= g_l && g_l < LC && 0 <= g_x && g_x < M);
+  g_dense0_r = DENSE(g_c, g_r); g_dense0_q = DENSE(g_c, in_lsub[g_lptr + g_q]);
+  g_lu0 = in_lusup[g_p]; g_lsub0 = in_lsub[g_l]; g_repfnz0 = in_repfnz[g_c*in_m + g_x]; g_xlsub0 = in_xlsub[g_x]; g_xlsub_end0 = in_xlsub_end[g_x]; g_xlusup0 = in_xlusup[g_x];
+  g_unused0[0] = in_panel_lsub[g_c*in_m + g_x]; g_unused0[1] = in_spa_marker[g_c*in_m + g_x]; g_unused0[2] = in_w_lsub_end[g_c];
+
   p@p@gstrf_bmod2D(in_pnum, in_m, in_w, in_jcol, in_fsupc, in_krep, in_nsupc, in_nsupr, in_nrow, in_repfnz, in_panel_lsub,
                  in_w_lsub_end, in_spa_marker, in_dense, in_tempv, &in_Glu, &in_Gstat);
+
+  /* ---------- ensures ---------- */
+  /* C02: the triangular solve of column g_c happens once, on the segsze x segsze diagonal block at row/column no_zeros */
+  ENS(trsv_once_on_diagonal_block, !BLAS(g_c) || (g_trsv_cnt == 1 && g_trsv_aoff == TRI_OFF(g_c) && g_trsv_n == SEGSZE(g_c)));
+  ENS(no_blas_for_small_segments, BLAS(g_c) || (g_trsv_cnt == 0 && g_gemv_cnt == 0));
+  /* C02: every row g_row below the diagonal block is multiplied exactly once, by columns no_zeros..krep of the supernode */
+  ENS(each_row_below_updated_once, !(BLAS(g_c) && g_row < in_nrow) || (g_gemv_cnt == 1 && g_gemv_n == SEGSZE(g_c) && g_gemv_aoff <= RECT_OFF(g_c, g_row) && RECT_OFF(g_c, g_row) < g_gemv_aoff + g_gemv_m));
+  /* C05: dense[] of a panel column is written only at rows of the supernode's row list, and not above the segment's first row */
+  ENS(dense_outside_list_kept, EX(e1, LC, INLIST(e1) && in_lsub[e1] == g_r) || DENSE(g_c, g_r) == g_dense0_r);
+  ENS(dense_above_segment_kept, !(ACTIVE(g_c) && g_q < NOZEROS(g_c)) || DENSE(g_c, in_lsub[g_lptr + g_q]) == g_dense0_q);
+  ENS(dense_empty_segment_kept, ACTIVE(g_c) || DENSE(g_c, g_r) == g_dense0_r);
+  ENS(tempv_zero_on_exit, in_tempv[g_t] == 0.0);
+  /* frame: the supernode, the index structures and the unused SCATTER_FOUND arrays are not written */
+  ENS(frame_lusup, in_lusup[g_p] == g_lu0);
+  ENS(frame_index_arrays, in_lsub[g_l] == g_lsub0 && in_repfnz[g_c*in_m + g_x] == g_repfnz0 && in_xlsub[g_x] == g_xlsub0 && in_xlsub_end[g_x] == g_xlsub_end0 && in_xlusup[g_x] == g_xlusup0);
+  ENS(frame_unused_arrays, in_panel_lsub[g_c*in_m + g_x] == g_unused0[0] && in_spa_marker[g_c*in_m + g_x] == g_unused0[1] && in_w_lsub_end[g_c] == g_unused0[2]);
   __CPROVER_assert(0, "canary: bmod2D returns");
   if (BLAS(0) && NOZEROS(0) > 0) __CPROVER_assert(0, "canary: segsze >= 4 with no_zeros > 0");
   if (BLAS(0) && in_nrow > in_rowblk && in_nrow - in_rowblk < in_rowblk) __CPROVER_assert(0, "canary: several block rows, last one short");
